@@ -105,48 +105,48 @@ __CPROVER_assigns();
 #ifdef SPEC_PART_HARNESS
 
 /*@ harness h_getUpperBound enforce=TbfMortonSpaceIndex__getUpperBound props=C11,C15 */
-void h_getUpperBound(void) { Morton m; long l; M(getUpperBound)(&m, l); }
+void h_getUpperBound(void) { Morton m; long l; M(getUpperBound)(&m, l);  CANARY(); }
 
 /*@ harness h_getBoxLimit enforce=TbfMortonSpaceIndex__getBoxLimit props=C11,C15 */
-void h_getBoxLimit(void) { Morton m; long l; M(getBoxLimit)(&m, l); }
+void h_getBoxLimit(void) { Morton m; long l; M(getBoxLimit)(&m, l);  CANARY(); }
 
 /*@ harness h_decode enforce=TbfMortonSpaceIndex__getBoxPosFromIndex unwind=LMAX+3 props=C11,C15 */
-void h_decode(void) { Morton m; long i; M(getBoxPosFromIndex)(&m, i); }
+void h_decode(void) { Morton m; long i; M(getBoxPosFromIndex)(&m, i);  CANARY(); }
 
 /*@ harness h_encode enforce=TbfMortonSpaceIndex__getIndexFromBoxPos unwind=LMAX+3 props=C11,C15 */
-void h_encode(void) { Morton m; struct ARR p; M(getIndexFromBoxPos)(&m, &p); }
+void h_encode(void) { Morton m; struct ARR p; M(getIndexFromBoxPos)(&m, &p);  CANARY(); }
 
 /*@ harness h_parent enforce=TbfMortonSpaceIndex__getParentIndex props=C11,C15 */
-void h_parent(void) { Morton m; long i; M(getParentIndex)(&m, i); }
+void h_parent(void) { Morton m; long i; M(getParentIndex)(&m, i);  CANARY(); }
 
 /*@ harness h_childpos enforce=TbfMortonSpaceIndex__childPositionFromParent props=C11,C15 */
-void h_childpos(void) { Morton m; long i; M(childPositionFromParent)(&m, i); }
+void h_childpos(void) { Morton m; long i; M(childPositionFromParent)(&m, i);  CANARY(); }
 
 /*@ harness h_child enforce=TbfMortonSpaceIndex__getChildIndexFromParent props=C11,C15 */
-void h_child(void) { Morton m; long i, c; M(getChildIndexFromParent)(&m, i, c); }
+void h_child(void) { Morton m; long i, c; M(getChildIndexFromParent)(&m, i, c);  CANARY(); }
 
 /*@ harness h_rel7 enforce=TbfMortonSpaceIndex__getRelativePosFromInteractionIndex unwind=DIM+2 props=C11,C15 */
-void h_rel7(void) { long c; M(getRelativePosFromInteractionIndex)(c); }
+void h_rel7(void) { long c; M(getRelativePosFromInteractionIndex)(c);  CANARY(); }
 
 /*@ harness h_rel3 enforce=TbfMortonSpaceIndex__getRelativePosFromNeighborIndex unwind=DIM+2 props=C11,C15 */
-void h_rel3(void) { long c; M(getRelativePosFromNeighborIndex)(c); }
+void h_rel3(void) { long c; M(getRelativePosFromNeighborIndex)(c);  CANARY(); }
 
 /*@ harness h_code7 enforce=TbfMortonSpaceIndex__getInteractionIndexFromRelativePos unwind=DIM+2 props=C11,C15 */
-void h_code7(void) { struct ARR p; M(getInteractionIndexFromRelativePos)(&p); }
+void h_code7(void) { struct ARR p; M(getInteractionIndexFromRelativePos)(&p);  CANARY(); }
 
 /*@ harness h_code3 enforce=TbfMortonSpaceIndex__getNeighborIndexFromRelativePos unwind=DIM+2 props=C11,C15 */
-void h_code3(void) { struct ARR p; M(getNeighborIndexFromRelativePos)(&p); }
+void h_code3(void) { struct ARR p; M(getNeighborIndexFromRelativePos)(&p);  CANARY(); }
 
 /*@ harness h_nbchildren enforce=TbfMortonSpaceIndex__getNbChildrenPerCell unwind=DIM+2 props=C11 */
-void h_nbchildren(void) { M(getNbChildrenPerCell)(); }
+void h_nbchildren(void) { M(getNbChildrenPerCell)();  CANARY(); }
 /*@ harness h_nbinter enforce=TbfMortonSpaceIndex__getNbInteractionsPerCell unwind=DIM+2 props=C11 */
-void h_nbinter(void) { M(getNbInteractionsPerCell)(); }
+void h_nbinter(void) { M(getNbInteractionsPerCell)();  CANARY(); }
 /*@ harness h_nbneigh enforce=TbfMortonSpaceIndex__getNbNeighborsPerLeaf unwind=DIM+2 props=C11 */
-void h_nbneigh(void) { M(getNbNeighborsPerLeaf)(); }
+void h_nbneigh(void) { M(getNbNeighborsPerLeaf)();  CANARY(); }
 /*@ harness h_pow3 enforce=TbfMortonSpaceIndex__get3PowDim unwind=DIM+2 props=C11 */
-void h_pow3(void) { M(get3PowDim)(); }
+void h_pow3(void) { M(get3PowDim)();  CANARY(); }
 /*@ harness h_lipow enforce=TbfUtils__lipow unwind=5 props=C11,C15 */
-void h_lipow(void) { long v, p; TbfUtils__lipow(v, p); }
+void h_lipow(void) { long v, p; TbfUtils__lipow(v, p);  CANARY(); }
 
 /* ---- L3 lemmas over the contracts (callees replaced by their contracts) */
 
@@ -160,6 +160,7 @@ void lemma_roundtrip_pos(void)
   __CPROVER_assert(0 <= i && i < M(getUpperBound)(&m, level), "C11: index of an in-box cell is below the level's upper bound");
   struct ARR q = M(getBoxPosFromIndex)(&m, i);
   for(long d = 0; d < DIM; ++d) __CPROVER_assert(q.d[d] == p.d[d], "C11: decode(encode(p)) == p");
+  CANARY();
 }
 
 /*@ harness lemma_roundtrip_idx replace=TbfMortonSpaceIndex__getIndexFromBoxPos,TbfMortonSpaceIndex__getBoxPosFromIndex,TbfMortonSpaceIndex__getUpperBound,TbfMortonSpaceIndex__getBoxLimit unwind=LMAX+3 props=C11 */
@@ -173,6 +174,7 @@ void lemma_roundtrip_idx(void)
   for(long d = 0; d < DIM; ++d) __CPROVER_assert(0 <= q.d[d] && q.d[d] < lim, "C11: coordinates of an index below the bound lie inside the grid");
   long j = M(getIndexFromBoxPos)(&m, &q);
   __CPROVER_assert(j == i, "C11: encode(decode(i)) == i");
+  CANARY();
 }
 
 /*@ harness lemma_parent_child replace=TbfMortonSpaceIndex__getBoxPosFromIndex,TbfMortonSpaceIndex__getParentIndex,TbfMortonSpaceIndex__childPositionFromParent,TbfMortonSpaceIndex__getChildIndexFromParent unwind=LMAX+3 props=C11,C02 */
@@ -193,6 +195,7 @@ void lemma_parent_child(void)
   __CPROVER_assert(code == expect, "C11/C02: child position code is the octant (low coordinate bits, dimension 0 most significant)");
   __CPROVER_assert(0 <= code && code < (1L << DIM), "C11: child code in range");
   __CPROVER_assert(M(getChildIndexFromParent)(&m, par, code) == i, "C11: child(parent(i), code(i)) == i");
+  CANARY();
 }
 
 /*@ harness lemma_codes replace=TbfMortonSpaceIndex__getRelativePosFromInteractionIndex,TbfMortonSpaceIndex__getInteractionIndexFromRelativePos,TbfMortonSpaceIndex__getRelativePosFromNeighborIndex,TbfMortonSpaceIndex__getNeighborIndexFromRelativePos unwind=DIM+2 props=C11 */
@@ -212,6 +215,7 @@ void lemma_codes(void)
   long e3 = M(getNeighborIndexFromRelativePos)(&p3);
   struct ARR q3 = M(getRelativePosFromNeighborIndex)(e3);
   for(long d = 0; d < DIM; ++d) __CPROVER_assert(q3.d[d] == p3.d[d], "C11: decode3(encode3(p)) == p");
+  CANARY();
 }
 
 #endif
